@@ -296,7 +296,7 @@ func runChild(cfg Config, ins []Input, stall time.Duration, skip []string) (*chi
 		panic(err)
 	}
 	cmd := exec.Command(os.Args[0], "-test.run", "^"+cfg.ChildTest+"$", "-test.count=1", "-test.timeout=0")
-	cmd.Env = append(os.Environ(), "VERIF_C04_BATCH="+bf, "VERIF_C04_RESULT="+rf, "GOMEMLIMIT=2GiB", "GOTRACEBACK=all",
+	cmd.Env = append(os.Environ(), "VERIF_C04_BATCH="+bf, "VERIF_C04_RESULT="+rf, "GOMEMLIMIT=2GiB", "GOTRACEBACK=single",
 		"VERIF_C04_SKIP="+strings.Join(skip, ","))
 	cmd.Env = append(cmd.Env, cfg.ExtraEnv...)
 	cmd.Stdout = errf
@@ -624,7 +624,7 @@ func Run(out *verifutil.Out, inputs []Input, cfg Config) Summary {
 		// The child died.  The input that was started but not ended is the first suspect.  A panic
 		// in a goroutine the input started (errgroup worker) races with the main goroutine, which
 		// may be released by the worker's deferred Done and finish the input (even start the
-		// next one) before the runtime kills the process: the input that ended last is a suspect
+		// next ones) before the runtime kills the process: the inputs that ended last are suspects
 		// too.  Each suspect is run again alone; what it does alone is what is recorded.
 		culprit, k := -1, -1
 		for i, id := range ids {
@@ -640,8 +640,12 @@ func Run(out *verifutil.Out, inputs []Input, cfg Config) Summary {
 		var suspects []int
 		clean := doneIDs
 		if d.how == "exit" && len(doneIDs) > 0 {
-			suspects = append(suspects, doneIDs[len(doneIDs)-1])
-			clean = doneIDs[:len(doneIDs)-1]
+			nsus := 4
+			if nsus > len(doneIDs) {
+				nsus = len(doneIDs)
+			}
+			suspects = append(suspects, doneIDs[len(doneIDs)-nsus:]...)
+			clean = doneIDs[:len(doneIDs)-nsus]
 		}
 		if culprit >= 0 {
 			suspects = append(suspects, culprit)
